@@ -276,6 +276,7 @@ Proof.
   intros c Hwf Hf. unfold spec_ok, model_obs. rewrite Hf.
   unfold wf in Hwf. rewrite Hf in Hwf.
   apply andb_true_iff in Hwf. destruct Hwf as [Hwf Ht]. apply andb_true_iff in Hwf. destruct Hwf as [Hnd Hrows].
+  apply andb_true_iff in Hnd. destruct Hnd as [Hnd _].
   apply andb_true_iff in Ht. destruct Ht as [Ht Htsv]. apply andb_true_iff in Ht. destruct Ht as [Ht Hvn].
   apply andb_true_iff in Ht. destruct Ht as [Hask Hne].
   destruct (c_ask c) eqn:Ea; [discriminate|].
